@@ -327,7 +327,7 @@ def r10_6(ctx):
     c11.r11_send(ctx)
     # EchoPort enqueues its argument (hence the copy made by send())
     ec = ctx.p.cls(P, 'EchoPort')
-    fn = ec.methods.get('_send')
+    fn = ctx.p.lookup_method(ec, '_send')[1]
     if fn is None:
         raise AnalysisError('EchoPort._send not found')
     ctx.fn(fn)
